@@ -12,6 +12,7 @@
 -/
 import HL.Lemmas.Run
 import HL.Lemmas.Formats
+import HL.Lemmas.Root
 namespace HL.Props.C12
 open HL.Index HL.Workspace HL.Spec.Rebuild
 open HL.Lemmas.Index HL.Lemmas.WsInv HL.Lemmas.Update HL.Lemmas.Init HL.Lemmas.View HL.Lemmas.Run
@@ -67,6 +68,22 @@ theorem C12_view_eq_rebuild (cfg : Cfg) (fs : FS) (us : List Upd)
   have := view_ok cfg (finalFs fs us) (run cfg fs us).w h1
   rw [h3] at this
   exact this
+
+/-- the same against `rebuild` (root selected by the specification's own `rootOf`), when a
+    rebuild selects the root the workspace has: the negated guard of the known finding
+    `root-not-reselected`. -/
+theorem C12_view_eq_rebuild_root (cfg : Cfg) (fs : FS) (us : List Upd) (h : Setting cfg fs us)
+    (hroot : rootOf (finalFs fs us) = rootOf fs) :
+    let r := rebuild cfg.limit (finalFs fs us)
+    let v := (observe (run cfg fs us).w).1
+    membersOk r v = true ∧ countsOk r v = true ∧ namesOk r v = true ∧ txOk r v = true ∧
+    declOk r v = true ∧ (cfg.fixT = true → ptOk r v = true) := by
+  have h0 := C12_view_eq_rebuild cfg fs us h
+  have e : rootOf (finalFs fs us) = rootSel fs := by
+    rw [hroot, HL.Lemmas.Root.rootSel_eq_rootOf fs (fsOk_nodup fs h.ok)]
+  unfold rebuild
+  rw [e]
+  exact h0
 
 /-- A fresh workspace initialised on the final contents satisfies the same specification:
     together with `C12_view_eq_rebuild` (and `rootSel (finalFs fs us) = rootSel fs`, the
@@ -225,6 +242,23 @@ theorem template_history_counterexample :
 
 /-- the repaired code (fix-template-loss.diff) keeps the template on the same history. -/
 example : (run { fixT := true } fsT usT).w.idx.pts.get "Shop" = some "T" := by decide
+
+/-- `C12_templates_partial` (pinned AND repaired code): a stored template is never stale or
+    invented — it is the template some member file currently has for that payee; what the
+    pinned code can get wrong is only which member's (history dependent) or that the payee is
+    missing (`template_loss_counterexample`, `template_history_counterexample`). -/
+theorem C12_templates_partial (cfg : Cfg) (fs : FS) (us : List Upd) (h : Setting cfg fs us)
+    (p t : String) (hp : (run cfg fs us).w.idx.pts.get p = some t) :
+    ∃ f c, (Reach (finalFs fs us) (rootSel fs) f ∧ (finalFs fs us).get f = some c) ∧
+      c.pts.get p = some t := by
+  obtain ⟨h1, _, h3, _⟩ := run_ok cfg fs us h.ok h.nonempty h.clean h.limit h.upds
+  obtain ⟨f, fi, hf, hfi⟩ := h1.pinv.g.idx.pts.sound p t hp
+  obtain ⟨c, hc, hfic⟩ := h1.pinv.g.fresh f fi hf
+  have hm := (h1.closed f).mp (by rw [hf]; rfl)
+  rw [h3] at hm
+  refine ⟨f, c, ⟨hm.1, hc⟩, ?_⟩
+  rw [hfic] at hfi
+  exact hfi
 
 /-! ### stale include graph of the pinned code (known finding `stale-include-graph`) -/
 
